@@ -15,7 +15,7 @@ import random
 
 from ..core import Eq, Fail, Note
 from .. import pat, ops
-from ..kapi import get_alg, mv, coeffs, mv_eq_claims, eq_claims, kmap
+from ..kapi import get_alg, mv, coeffs, mv_eq_claims, eq_claims, kmap, twice_on_wrapper
 
 PROP = 'C06'
 LEVEL = 'translation_validation'
@@ -70,6 +70,19 @@ def cases(tier, seed):
         pairs += [(R[2 * i], R[2 * i + 1]) for i in range(len(R) // 2)]
         for x, y in pairs:
             add(cfg, x, y)
+    # d = 4 systematically: parity-pure / single-grade / two-grade blocks against every single grade
+    order4 = pat.canon_order(4)
+    g4 = lambda gs: [k for k in order4 if bin(k).count('1') in gs]
+    blocks = [(0,), (1,), (2,), (3,), (4,), (0, 2), (2, 4), (0, 4), (1, 3), (0, 2, 4)]
+    for cfg in ([dict(p=4), dict(p=3, r=1)] if tier == 'quick' else [dict(p=4), dict(p=3, r=1), dict(p=2, q=2), dict(p=1, q=3), dict(p=3, q=1)]):
+        for bx in blocks:
+            for gy in range(5):
+                if len(g4(bx)) * len(g4((gy,))) > 30 and tier == 'quick' and cfg != dict(p=4):
+                    continue
+                add(cfg, g4(bx), g4((gy,)))
+        for gx in range(5):
+            for by in blocks[5:]:
+                add(cfg, g4((gx,)), g4(by))
     # even rotor on vector in 3DPGA: the documented use
     ev = [k for k in pat.canon_order(4, 0) if bin(k).count('1') % 2 == 0]
     vec = [k for k in pat.canon_order(4, 0) if bin(k).count('1') == 1]
@@ -90,7 +103,10 @@ def cases(tier, seed):
 
 
 def run_case(desc, V):
-    alg = get_alg(desc['cfg'], fresh=bool(desc['cfg'].get('wrapper')))
+    return twice_on_wrapper(desc['cfg'], lambda alg: _body(desc, V, alg))
+
+
+def _body(desc, V, alg):
     km = kmap(alg)
     a = mv(alg, V, 'a', desc['ka'])
     b = mv(alg, V, 'b', desc['kb'])
